@@ -243,6 +243,7 @@ type universe struct {
 	terms  []*sx
 	parent []int
 	byHead map[string][]*sx // normalized representatives by head symbol
+	assume  map[string]bool // case assumptions on ite conditions
 	lit     map[int]string
 	active  map[int]bool // terms in the goal's cone: only these (or terms equal to them) start a match
 	activeCls map[int]bool
@@ -312,6 +313,16 @@ func (u *universe) intern(x *sx) int {
 		u.lit[id] = s
 	}
 	u.dirty = true
+	if u.assume != nil && x.isList() && x.head() == "ite" && len(x.list) == 4 {
+		if v, ok := u.assume[x.list[1].String()]; ok {
+			br := x.list[3]
+			if v {
+				br = x.list[2]
+			}
+			bid := u.intern(br)
+			u.eqs = append(u.eqs, [2]int{id, bid})
+		}
+	}
 	return id
 }
 
@@ -494,6 +505,50 @@ func (u *universe) close() {
 			u.byHead[h] = append(u.byHead[h], n)
 		}
 	}
+}
+
+// liftSelects adds, for every active (select X i), the terms (select A i) for the arrays A
+// that X is built from through ite/store (state merges and updates). They are not equal to
+// the original term in general; they only serve as instantiation candidates.
+func (u *universe) liftSelects() bool {
+	added := false
+	n := len(u.terms)
+	for id := 0; id < n; id++ {
+		t := u.terms[id]
+		if !t.isList() || t.head() != "select" || len(t.list) != 3 || !u.activeCls[u.find(id)] {
+			continue
+		}
+		xid, ok := u.ids[t.list[1].String()]
+		if !ok {
+			continue
+		}
+		for _, mid := range u.members[u.find(xid)] {
+			m := u.terms[mid]
+			var subs []*sx
+			switch m.head() {
+			case "ite":
+				if len(m.list) == 4 {
+					subs = []*sx{m.list[2], m.list[3]}
+				}
+			case "store":
+				if len(m.list) == 4 {
+					subs = []*sx{m.list[1]}
+				}
+			}
+			for _, a := range subs {
+				nt := &sx{list: []*sx{t.list[0], a, t.list[2]}}
+				if _, exists := u.ids[nt.String()]; !exists {
+					nid := u.intern(nt)
+					u.active[nid] = true
+					added = true
+				} else if nid := u.ids[nt.String()]; !u.active[nid] {
+					u.active[nid] = true
+					added = true
+				}
+			}
+		}
+	}
+	return added
 }
 
 // classMembers lists, per class representative, the application terms in the class.
@@ -732,9 +787,55 @@ func matchSx(p, t *sx, vars map[string]bool, b map[string]*sx) bool {
 // quantified facts found by matching, and the goal with explicit witnesses.
 // It returns the lines to write (without preamble) and the number of instances.
 func groundQuery(facts []string, pc, goal string, maxRounds int) ([]string, int) {
+	return groundQueryAssume(facts, pc, goal, maxRounds, nil)
+}
+
+// iteConditions lists the conditions of ite terms occurring in ground facts, most frequent first.
+func iteConditions(facts []string) []string {
+	cnt := map[string]int{}
+	var walk func(x *sx)
+	walk = func(x *sx) {
+		if !x.isList() {
+			return
+		}
+		if x.head() == "ite" && len(x.list) == 4 {
+			c := x.list[1].String()
+			if len(c) < 200 {
+				cnt[c]++
+			}
+		}
+		for _, c := range x.list {
+			walk(c)
+		}
+	}
+	for _, l := range facts {
+		if strings.HasPrefix(l, "(assert ") && strings.Contains(l, "(ite ") && !strings.Contains(l, "(forall ") && len(l) < 4000 {
+			if x := parseSexp(l); x != nil {
+				walk(x)
+			}
+		}
+	}
+	var cs []string
+	for c := range cnt {
+		cs = append(cs, c)
+	}
+	sort.Slice(cs, func(i, j int) bool {
+		if cnt[cs[i]] != cnt[cs[j]] {
+			return cnt[cs[i]] > cnt[cs[j]]
+		}
+		return cs[i] < cs[j]
+	})
+	return cs
+}
+
+// groundQueryAssume builds the ground query under case assumptions: each assumed
+// condition (or its negation) is asserted, and ite terms with that condition are
+// identified with the selected branch in the matching universe.
+func groundQueryAssume(facts []string, pc, goal string, maxRounds int, assume map[string]bool) ([]string, int) {
 	var ground []string
 	var qs []qfact
 	u := newUniverse()
+	u.assume = assume
 	for _, l := range facts {
 		if strings.HasPrefix(l, "(assert (= ") || strings.HasPrefix(l, "(assert (=> ") {
 			if !strings.Contains(l, "(forall ") && !strings.Contains(l, "(exists ") && len(l) < 1500 {
@@ -782,6 +883,13 @@ func groundQuery(facts []string, pc, goal string, maxRounds int) ([]string, int)
 	}
 	for round := 0; round < maxRounds && len(inst) < capTotal; round++ {
 		u.close()
+		for k := 0; k < 3; k++ {
+			if !u.liftSelects() {
+				break
+			}
+			u.dirty = true
+			u.close()
+		}
 		var newInst []*sx
 		for _, q := range qs {
 			vars := map[string]bool{}
@@ -861,6 +969,13 @@ func groundQuery(facts []string, pc, goal string, maxRounds int) ([]string, int)
 		g2 = groundGoal(g, true, u).String()
 	}
 	out := append(ground, inst...)
+	for c, v := range assume {
+		if v {
+			out = append(out, "(assert "+c+")")
+		} else {
+			out = append(out, "(assert (not "+c+"))")
+		}
+	}
 	out = append(out, "(assert "+pc+")", "(assert (not "+g2+"))", "(check-sat)")
 	return out, len(inst)
 }
